@@ -560,8 +560,15 @@ func (p *bytePath) classify(bb, pred *ssa.BasicBlock, cset bset, env map[ssa.Val
 					*tru = tru.or(cset)
 					return
 				}
-				if v := p.val(env, x.Results[0]); v.k == bpBool && v.b {
+				v := p.val(env, x.Results[0])
+				if v.k == bpBool && v.b {
 					*tru = tru.or(cset)
+					return
+				}
+				// `return c == '['`: true for the bytes of the predicate, false for the others
+				if v.k == bpPred {
+					*tru = tru.or(cset.and(v.set))
+					*fls = fls.or(cset.and(v.set.not()))
 					return
 				}
 			}
